@@ -1,26 +1,25 @@
 #!/bin/bash
-# seed_matrix.sh: every seeded change x every quick check, on scratch worktrees (never touches /repo's working tree).
-# Writes seeded/matrix.tsv.  Correspondence only when SKIP_COQ=1.
+# seed_matrix.sh <tag> <seed>...: the given seeded changes x every quick check, on a scratch worktree (never touches /repo's working
+# tree).  Appends to seeded/matrix.<tag>.tsv; tools/seed_matrix_all.sh runs four of these in parallel and merges them into matrix.tsv.
 cd /verif
-OUT=seeded/matrix.tsv
-echo -e "seed\tcaught_by" > $OUT
-WT=/tmp/wt_matrix
-export VERIF_REPO=$WT VERIF_WORK=/tmp/vwork_matrix VERIF_EVIDENCE=/tmp/vwork_matrix/evidence VERIF_REPLAYS=/tmp/vwork_matrix/replays
+TAG=$1; shift
+OUT=seeded/matrix.$TAG.tsv
+: > $OUT
+WT=/tmp/wt_matrix_$TAG
+export VERIF_REPO=$WT VERIF_WORK=/tmp/vwork_matrix_$TAG VERIF_EVIDENCE=/tmp/vwork_matrix_$TAG/evidence VERIF_REPLAYS=/tmp/vwork_matrix_$TAG/replays
 git -C /repo worktree remove --force $WT 2>/dev/null
 git -C /repo worktree add -q --detach $WT HEAD || exit 2
-for d in seeded/C*/; do
-  S=$(basename $d)
+for S in "$@"; do
   git -C $WT checkout -q -- .
-  git -C $WT apply /verif/seeded/$S/patch.diff || { echo "$S: patch does not apply"; continue; }
+  git -C $WT apply /verif/seeded/$S/patch.diff || { echo -e "$S\tpatch-does-not-apply" >> $OUT; continue; }
   HIT=""
   for P in C01 C02 C03 C04 C05 C06 C07 C08 C09 C10 C11 C12 C13 C14 C15 C16 C17 C18 C19 C20; do
-    VERIF_DEV_SKIP_COQ=${SKIP_COQ:-0} python3 tools/check.py $P --tier quick > /tmp/matrix_${S}_$P.log 2>&1
+    VERIF_DEV_SKIP_COQ=1 python3 tools/check.py $P --tier quick > $VERIF_WORK.$P.log 2>&1
     RC=$?
     [ $RC -eq 1 ] && HIT="$HIT $P"
     [ $RC -ge 2 ] && HIT="$HIT $P(rc$RC)"
   done
   echo -e "$S\t$HIT" >> $OUT
-  echo "$S:$HIT"
 done
 git -C /repo worktree remove --force $WT
-rm -rf /tmp/vwork_matrix
+rm -rf /tmp/vwork_matrix_$TAG /tmp/vwork_matrix_$TAG.*.log
